@@ -11,7 +11,7 @@ inductive Schema where
   | mk (type : String) (object : Option SchemaObject) (union : List Schema)
 /-- `type SchemaObject struct {…}`; `items`/`values` are Schema values (zero value when absent) -/
 inductive SchemaObject where
-  | mk (type logicalType name namespace : String) (fields : List SchemaField)
+  | mk (type logicalType name nspace : String) (fields : List SchemaField)
        (items values : Schema) (size : Int) (symbols : List String)
 /-- `type SchemaRecordField struct { Name string; Type Schema }` -/
 inductive SchemaField where
@@ -32,7 +32,7 @@ def Schema.prim (t : String) : Schema := .mk t none []
 def SchemaObject.type : SchemaObject → String | .mk t _ _ _ _ _ _ _ _ => t
 def SchemaObject.logicalType : SchemaObject → String | .mk _ l _ _ _ _ _ _ _ => l
 def SchemaObject.name : SchemaObject → String | .mk _ _ n _ _ _ _ _ _ => n
-def SchemaObject.namespace : SchemaObject → String | .mk _ _ _ n _ _ _ _ _ => n
+def SchemaObject.nspace : SchemaObject → String | .mk _ _ _ n _ _ _ _ _ => n
 def SchemaObject.fields : SchemaObject → List SchemaField | .mk _ _ _ _ f _ _ _ _ => f
 def SchemaObject.items : SchemaObject → Schema | .mk _ _ _ _ _ i _ _ _ => i
 def SchemaObject.values : SchemaObject → Schema | .mk _ _ _ _ _ _ v _ _ => v
